@@ -338,6 +338,51 @@ Definition bad_peer_closes (fs : list func) : list (string * N) :=
     then map (fun o => (f_name f, o_line o)) (filter (fun o => opk_eqb (o_kind o) OPeerClose) (f_ops f))
     else []) fs.
 
+(** ** Every sender on a closable action channel is awaited by the closer
+
+    [realm.close] closes the dealer's, the broker's and the realm's action
+    channels.  A goroutine may send on one of them only if the close sequence
+    waits for it first: session handlers ([waitHandlers]), the realm goroutine
+    (busy only while a handler waits for it), the meta session and
+    metaProcedureHandler ([metaDone]), call timers ([dealer.timers]), the closer
+    itself and realm construction; an attach goroutine only inside the
+    [closeLock] section ([onJoin]).  Anything else could send after the close
+    (e.g. an authenticator lookup through the realm goroutine while the realm
+    is being removed). *)
+Definition sender_allowed (r : role) (k : gkind) (f : func) : bool :=
+  match r with
+  | RRealmAct =>
+      match k with
+      | KSessHandler | KMetaProc | KRouter | KApi => true
+      | KAttach => String.eqb (f_name f) "realm.onJoin"
+      | _ => false
+      end
+  | RDealerAct =>
+      match k with
+      | KSessHandler | KMetaSess | KRealm | KCallTimer | KMetaProc | KRouter | KApi => true
+      | _ => false
+      end
+  | RBrokerAct =>
+      match k with
+      | KSessHandler | KMetaSess | KRealm | KMetaProc | KRouter | KApi => true
+      | _ => false
+      end
+  | _ => true
+  end.
+
+Definition sends_on_action (o : op) : bool :=
+  match o_kind o with OSend | OSubmit => true | _ => false end.
+
+Definition closable_senders_covered (fs : list func) : bool :=
+  forallb (fun f => forallb (fun o =>
+     if sends_on_action o then forallb (fun k => sender_allowed (o_role o) k f) (f_kinds f) else true)
+     (f_ops f)) fs.
+
+Definition uncovered_senders (fs : list func) : list (string * N) :=
+  flat_map (fun f => map (fun o => (f_name f, o_line o))
+     (filter (fun o => sends_on_action o && negb (forallb (fun k => sender_allowed (o_role o) k f) (f_kinds f)))
+             (f_ops f))) fs.
+
 (** ** Shutdown sequences (C06), compared by order *)
 
 Inductive sym : Type :=
